@@ -52,6 +52,10 @@ CONTEXTS = {
     "loop-body": _META + " FOR TYPE_INT NAME IN INT COLON INT NEWLINE TAB NAME APPLY NAME NEWLINE",
     "loop-body-second": _META + " FOR TYPE_INT NAME IN INT COLON INT NEWLINE TAB NAME APPLY NAME NEWLINE TAB NAME LBRAC NAME RBRAC APPLY INT NEWLINE",
     "parameter": _META + " NAME LBRAC LBRACE",
+    "modes-bare-paren": _META + " NAME APPLY LBRAC INT RBRAC",               # "G | (0)" may go on as "(0)*2", "(0), 1", "(0)+1"
+    "modes-paren-sum": _META + " NAME APPLY LBRAC INT PLUS INT RBRAC",      # "G | (0+1)" ... "*2"
+    "argument-paren": _META + " NAME LBRAC LBRAC INT RBRAC",                 # "G((1)" ... "**2, ..."
+    "loop-list-bare-paren": _META + " FOR TYPE_INT NAME IN LBRAC INT RBRAC",  # "for int i in (1)" ... "*2", ", 3"
 }
 
 
